@@ -32,7 +32,7 @@ func VerifH_C28_ServerConvergence() {
 	cs, _ := c.call(&ua.CreateSubscriptionRequest{RequestHeader: vfRawHdr(c.auth), RequestedPublishingInterval: 100, RequestedLifetimeCount: 30, RequestedMaxKeepAliveCount: 1, PublishingEnabled: true}).(*ua.CreateSubscriptionResponse)
 	vfAssert(cs != nil && cs.ResponseHeader.ServiceResult == ua.StatusOK, "CreateSubscription fails")
 	// client handles are the client's choice (concrete candidates: the server keys a map by them)
-	handles := [][]uint32{{7, 9}, {0, 1}, {4294967295, 0}}[vfConcrete(vfInt("handles", 0, 2))]
+	handles := [][]uint32{{7, 9}, {0, 1}, {4294967295, 0}}[vfConcrete(vfInt("handles", 0, vfParam("c28.handles", 3)-1))]
 	var items []*ua.MonitoredItemCreateRequest
 	for i, id := range ids {
 		items = append(items, &ua.MonitoredItemCreateRequest{ItemToMonitor: &ua.ReadValueID{NodeID: id, AttributeID: ua.AttributeIDValue, DataEncoding: &ua.QualifiedName{}}, MonitoringMode: ua.MonitoringModeReporting,
@@ -41,6 +41,18 @@ func VerifH_C28_ServerConvergence() {
 	cm, _ := c.call(&ua.CreateMonitoredItemsRequest{RequestHeader: vfRawHdr(c.auth), SubscriptionID: cs.SubscriptionID, TimestampsToReturn: ua.TimestampsToReturnBoth, ItemsToCreate: items}).(*ua.CreateMonitoredItemsResponse)
 	vfAssert(cm != nil && len(cm.Results) == 2 && cm.Results[0].StatusCode == ua.StatusOK && cm.Results[1].StatusCode == ua.StatusOK, "CreateMonitoredItems fails")
 
+	// optionally the subscription's notification queue is already full of earlier reports for
+	// the first item (a burst of writes the publishing loop has not got to yet)
+	if vfConcrete(vfInt("burst", 0, 1)) == 1 {
+		s.SubscriptionService.Mu.Lock()
+		sub := s.SubscriptionService.Subs[cs.SubscriptionID]
+		s.SubscriptionService.Mu.Unlock()
+		vfAssert(sub != nil, "the subscription is not registered on the server")
+		for len(sub.NotifyChannel) < cap(sub.NotifyChannel) {
+			sub.NotifyChannel <- &ua.MonitoredItemNotification{ClientHandle: handles[0], Value: &ua.DataValue{EncodingMask: ua.DataValueValue, Value: ua.MustVariant(int32(1))}}
+		}
+		vfReach("burst")
+	}
 	// the writes: which node each one goes to is explored, the values are symbolic
 	vfPreempt(true)
 	current := []int32{1, 2}
